@@ -283,6 +283,10 @@
 #define DEFAULT_SPLIT_COUNT_MASK	0xFUL
 #define CHAIN_LEN_TARGET		1
 #define CHAIN_LEN_RESIZE_THRESHOLD	3
+#if defined(URCU_VERIF) && defined(URCU_VERIF_CHAIN_LEN_RESIZE_THRESHOLD)
+#undef CHAIN_LEN_RESIZE_THRESHOLD
+#define CHAIN_LEN_RESIZE_THRESHOLD URCU_VERIF_CHAIN_LEN_RESIZE_THRESHOLD
+#endif
 
 /*
  * Define the minimum table size.
